@@ -909,3 +909,12 @@ Proof. vm_compute. reflexivity. Qed.
 '''),
     ],
 }
+
+
+# the lexer rules the hand-translated scanners stand for (coq/sieve/LexRules.v) against the rules read from the
+# working tree by tools/gen_tables.py: an obligation of every property that rests on the lexer
+for _pid in ("C01", "C02", "C03", "C04", "C18"):
+    SPEC[_pid]["imports"] += "From SV Require Import LexRules.\n"
+    SPEC[_pid]["theorems"].append(("raw", (
+        "(* Parser.lrules of the working tree are the regular expressions the scanners of sieve/Lexer.v were translated from *)\n"
+        "Example %s_lexer_rules : gen_lrules = expected_lrules.\nProof. vm_compute. reflexivity. Qed.\n") % _pid))
